@@ -7,9 +7,15 @@
 
 use std::ops::Add;
 use std::path::Path;
+#[cfg(not(feature = "verif_sim"))]
 use std::thread::sleep;
+#[cfg(feature = "verif_sim")]
+use crate::verif_sim::sleep;
 use std::time::Duration;
+#[cfg(not(feature = "verif_sim"))]
 use std::time::Instant;
+#[cfg(feature = "verif_sim")]
+use crate::verif_sim::Instant;
 
 use anyhow::Context;
 use tempfile::TempDir;
